@@ -1,22 +1,37 @@
 // ---- expression constructors used for residuals (shape = what the AST builder produces: and / or / is_entity_type are proved in unit builder, the others assumed) ----
+// the expression kinds the constructors produce, as named functions (the rules of psound.rs trigger on them)
+pub open spec fn and_kind(e1: Expr, e2: Expr) -> ExprKind { match (e1.expr_kind, e2.expr_kind) { (ExprKind::Lit(Literal::Bool(b1)), ExprKind::Lit(Literal::Bool(b2))) => ExprKind::Lit(Literal::Bool(b1 && b2)), _ => ExprKind::And { left: Arc::new(e1), right: Arc::new(e2) } } }
+pub open spec fn or_kind(e1: Expr, e2: Expr) -> ExprKind { match (e1.expr_kind, e2.expr_kind) { (ExprKind::Lit(Literal::Bool(b1)), ExprKind::Lit(Literal::Bool(b2))) => ExprKind::Lit(Literal::Bool(b1 || b2)), _ => ExprKind::Or { left: Arc::new(e1), right: Arc::new(e2) } } }
+pub open spec fn k_unary(op: UnaryOp, e: Expr) -> ExprKind { ExprKind::UnaryApp { op, arg: Arc::new(e) } }
+pub open spec fn k_binary(op: BinaryOp, e1: Expr, e2: Expr) -> ExprKind { ExprKind::BinaryApp { op, arg1: Arc::new(e1), arg2: Arc::new(e2) } }
+pub open spec fn k_hasattr(e: Expr, a: SmolStr) -> ExprKind { ExprKind::HasAttr { expr: Arc::new(e), attr: a } }
+pub open spec fn k_getattr(e: Expr, a: SmolStr) -> ExprKind { ExprKind::GetAttr { expr: Arc::new(e), attr: a } }
+pub open spec fn k_like(e: Expr, p: Pattern) -> ExprKind { ExprKind::Like { expr: Arc::new(e), pattern: p } }
+pub open spec fn k_is(e: Expr, t: EntityType) -> ExprKind { ExprKind::Is { expr: Arc::new(e), entity_type: t } }
+pub open spec fn k_ite(a: Expr, b: Expr, c: Expr) -> ExprKind { ExprKind::If { test_expr: Arc::new(a), then_expr: Arc::new(b), else_expr: Arc::new(c) } }
 impl Expr {
-    #[verifier::external_body] pub fn and(e1: Expr, e2: Expr) -> (r: Expr) ensures r.expr_kind == (match (e1.expr_kind, e2.expr_kind) { (ExprKind::Lit(Literal::Bool(b1)), ExprKind::Lit(Literal::Bool(b2))) => ExprKind::Lit(Literal::Bool(b1 && b2)), _ => ExprKind::And { left: Arc::new(e1), right: Arc::new(e2) } }) { unimplemented!() }
-    #[verifier::external_body] pub fn or(e1: Expr, e2: Expr) -> (r: Expr) ensures r.expr_kind == (match (e1.expr_kind, e2.expr_kind) { (ExprKind::Lit(Literal::Bool(b1)), ExprKind::Lit(Literal::Bool(b2))) => ExprKind::Lit(Literal::Bool(b1 || b2)), _ => ExprKind::Or { left: Arc::new(e1), right: Arc::new(e2) } }) { unimplemented!() }
+    #[verifier::external_body] pub fn and(e1: Expr, e2: Expr) -> (r: Expr) ensures r.expr_kind == and_kind(e1, e2) { unimplemented!() }
+    #[verifier::external_body] pub fn or(e1: Expr, e2: Expr) -> (r: Expr) ensures r.expr_kind == or_kind(e1, e2) { unimplemented!() }
     #[verifier::external_body] pub fn val_bool(v: bool) -> (r: Expr) ensures r.expr_kind == ExprKind::<()>::Lit(Literal::Bool(v)) { unimplemented!() }
     #[verifier::external_body] pub fn val_str(v: SmolStr) -> (r: Expr) ensures r.expr_kind == ExprKind::<()>::Lit(Literal::String(v)) { unimplemented!() }
-    #[verifier::external_body] pub fn unary_app(op: UnaryOp, e: Expr) -> (r: Expr) ensures r.expr_kind == (ExprKind::UnaryApp { op, arg: Arc::new(e) }) { unimplemented!() }
-    #[verifier::external_body] pub fn binary_app(op: BinaryOp, e1: Expr, e2: Expr) -> (r: Expr) ensures r.expr_kind == (ExprKind::BinaryApp { op, arg1: Arc::new(e1), arg2: Arc::new(e2) }) { unimplemented!() }
-    #[verifier::external_body] pub fn get_tag(e1: Expr, e2: Expr) -> (r: Expr) ensures r.expr_kind == (ExprKind::BinaryApp { op: BinaryOp::GetTag, arg1: Arc::new(e1), arg2: Arc::new(e2) }) { unimplemented!() }
-    #[verifier::external_body] pub fn has_tag(e1: Expr, e2: Expr) -> (r: Expr) ensures r.expr_kind == (ExprKind::BinaryApp { op: BinaryOp::HasTag, arg1: Arc::new(e1), arg2: Arc::new(e2) }) { unimplemented!() }
+    #[verifier::external_body] pub fn unary_app(op: UnaryOp, e: Expr) -> (r: Expr) ensures r.expr_kind == k_unary(op, e) { unimplemented!() }
+    #[verifier::external_body] pub fn binary_app(op: BinaryOp, e1: Expr, e2: Expr) -> (r: Expr) ensures r.expr_kind == k_binary(op, e1, e2) { unimplemented!() }
+    #[verifier::external_body] pub fn get_tag(e1: Expr, e2: Expr) -> (r: Expr) ensures r.expr_kind == k_binary(BinaryOp::GetTag, e1, e2) { unimplemented!() }
+    #[verifier::external_body] pub fn has_tag(e1: Expr, e2: Expr) -> (r: Expr) ensures r.expr_kind == k_binary(BinaryOp::HasTag, e1, e2) { unimplemented!() }
     #[verifier::external_body] pub fn call_extension_fn(n: Name, args: Vec<Expr>) -> (r: Expr) ensures r.expr_kind == (ExprKind::ExtensionFunctionApp { fn_name: n, args: Arc::new(args) }) { unimplemented!() }
-    #[verifier::external_body] pub fn has_attr(e: Expr, a: SmolStr) -> (r: Expr) ensures r.expr_kind == (ExprKind::HasAttr { expr: Arc::new(e), attr: a }) { unimplemented!() }
-    #[verifier::external_body] pub fn get_attr(e: Expr, a: SmolStr) -> (r: Expr) ensures r.expr_kind == (ExprKind::GetAttr { expr: Arc::new(e), attr: a }) { unimplemented!() }
-    #[verifier::external_body] pub fn like(e: Expr, p: Pattern) -> (r: Expr) ensures r.expr_kind == (ExprKind::Like { expr: Arc::new(e), pattern: p }) { unimplemented!() }
-    #[verifier::external_body] pub fn is_entity_type(e: Expr, t: EntityType) -> (r: Expr) ensures r.expr_kind == (ExprKind::Is { expr: Arc::new(e), entity_type: t }) { unimplemented!() }
+    #[verifier::external_body] pub fn has_attr(e: Expr, a: SmolStr) -> (r: Expr) ensures r.expr_kind == k_hasattr(e, a) { unimplemented!() }
+    #[verifier::external_body] pub fn get_attr(e: Expr, a: SmolStr) -> (r: Expr) ensures r.expr_kind == k_getattr(e, a) { unimplemented!() }
+    #[verifier::external_body] pub fn like(e: Expr, p: Pattern) -> (r: Expr) ensures r.expr_kind == k_like(e, p) { unimplemented!() }
+    #[verifier::external_body] pub fn is_entity_type(e: Expr, t: EntityType) -> (r: Expr) ensures r.expr_kind == k_is(e, t) { unimplemented!() }
     #[verifier::external_body] pub fn set(es: VxIter<Expr>) -> (r: Expr) ensures r.expr_kind is Set && r.expr_kind->Set_0@ == es.items() { unimplemented!() }
+    /// builds the map from the pairs; fails on a duplicate key.  (If the keys are the key order of some map, they are the key order of the result.)
     #[verifier::external_body] pub fn record(es: VxIter<(SmolStr, Expr)>) -> (r: std::result::Result<Expr, ExpressionConstructionError>)
-        ensures (forall|i: int, j: int| 0 <= i < j < es.items().len() ==> es.items()[i].0 != es.items()[j].0) ==> r is Ok { unimplemented!() }
+        ensures (forall|i: int, j: int| 0 <= i < j < es.items().len() ==> es.items()[i].0 != es.items()[j].0) ==> r is Ok,
+            r is Ok ==> r->Ok_0.expr_kind is Record && (forall|m0: BTreeMap<SmolStr, Expr>| (#[trigger] m0.key_order()).len() == es.items().len() && (forall|i: int| 0 <= i < es.items().len() ==> m0.key_order()[i] == es.items()[i].0) ==> {
+                let m = r->Ok_0.expr_kind->Record_0;
+                m.key_order() == m0.key_order() && forall|i: int| 0 <= i < es.items().len() ==> m@[#[trigger] m.key_order()[i]] == es.items()[i].1
+            }) { unimplemented!() }
     #[verifier::external_body] pub fn record_arc(m: Arc<BTreeMap<SmolStr, Expr>>) -> (r: Expr) ensures r.expr_kind == ExprKind::<()>::Record(m) { unimplemented!() }
-    #[verifier::external_body] pub fn ite_arc(a: Arc<Expr>, b: Arc<Expr>, c: Arc<Expr>) -> (r: Expr) ensures r.expr_kind == (ExprKind::If { test_expr: a, then_expr: b, else_expr: c }) { unimplemented!() }
+    #[verifier::external_body] pub fn ite_arc(a: Arc<Expr>, b: Arc<Expr>, c: Arc<Expr>) -> (r: Expr) ensures r.expr_kind == k_ite(*a, *b, *c) { unimplemented!() }
     #[verifier::external_body] pub fn unknown(u: Unknown) -> (r: Expr) ensures r.expr_kind == ExprKind::<()>::Unknown(u) { unimplemented!() }
 }
